@@ -84,6 +84,15 @@ CHECKS = {
             "application's emulation function, latest-satisfied-rule precedence, results, and byte-identical code for untouched built-ins.",
             "application rules use the public emit macros; histories stay within ORC_N_RULE_SETS",
             "DESIGN.md 4/C20", True),
+    "C17": ("xdet", "model_checking",
+            "explicit enumeration of preceding histories x debug levels, each replayed in a fresh process before compiling the full probe set for all registered targets; digest equality with the empty-history baseline",
+            "Every history of up to 1 (all probes) / 2 (corpus + pressure probes) operations in the quick tier, 2 / 3 in the thorough tier, over "
+            "{compile+keep for avx, compile+keep for sse, free oldest, compile+run+free, failed compile, fatal compile, compile for neon, "
+            "application heap traffic}, with and without heap poisoning and under several ORC_DEBUG levels, is applied in a fresh process; "
+            "then every single-opcode program (integer and float) and the corpus is compiled for all 8 targets and code/listing digests must "
+            "equal the baseline. In-process: recompile after reset reproduces the code, three runs of one function agree.",
+            "digests (64-bit FNV) stand for the bytes; explicit program names; non-native targets compiled only",
+            "DESIGN.md 4/C17", True),
 }
 
 NOT_YET = {}
@@ -124,6 +133,8 @@ def main():
             "add_only": True,
         },
         "engines": [
+            {"name": "xdet", "path": "engines/xdet.c", "serves_properties": ["C17"],
+             "kind_free_text": "history replayer + probe compiler emitting code/listing digests per (probe,target); driver enumerates histories and compares with the baseline"},
             {"name": "xreg", "path": "engines/xreg.c", "serves_properties": ["C20"],
              "kind_free_text": "registration-history enumerator: fork per history from an initialised zygote, probes + differential oracle"},
             {"name": "xfault", "path": "engines/xfault.c", "serves_properties": ["C06"],
